@@ -43,48 +43,51 @@ function probe(k){ var t = __probe(k); if (t !== undefined) throw t; }
   }
   function isObj(v){ return v !== null && (typeof v === 'object' || typeof v === 'function'); }
   function dump(strip){
-    var ids = new Map(), nodes = [], stripped = 0, bad = [];
+    // emits the JSON text directly (no intermediate object graph: this runs after every faulted history)
+    var ids = new Map(), nodes = [], bad = [];
     function val(v){
-      if (v === undefined) return ['u'];
-      if (v === null) return ['n'];
+      if (v === undefined) return '["u"]';
+      if (v === null) return '["n"]';
       switch (typeof v) {
-      case 'boolean': return ['b', v];
-      case 'number': return ['d', is(v, -0) ? '-0' : String(v)];
-      case 'string': return ['s', v];
-      case 'bigint': return ['g', String(v)];
-      case 'symbol': return ['y', symName(v) || '?'];
+      case 'boolean': return v ? '["b",true]' : '["b",false]';
+      case 'number': return '["d","' + (is(v, -0) ? '-0' : String(v)) + '"]';
+      case 'string': return '["s",' + JS(v) + ']';
+      case 'bigint': return '["g","' + String(v) + '"]';
+      case 'symbol': return '["y","' + (symName(v) || '?') + '"]';
       }
       var id = ids.get(v);
-      if (id !== undefined) return ['r', id];
+      if (id !== undefined) return '["r",' + id + ']';
       id = nodes.length; ids.set(v, id);
-      var k = kindOf(v), node = {t: k};
-      nodes.push(node);
-      if (k === 'F') { node.src = fts.call(v); return ['r', id]; }
-      if (k === 'X') { node.c = typeof v === 'function' ? 'function' : ots.call(v); return ['r', id]; }
-      if (k === 'M') { node.e = []; mapForEach.call(v, function(mv, mk){ node.e.push([val(mk), val(mv)]); }); }
-      if (k === 'S') { node.e = []; setForEach.call(v, function(sv){ node.e.push(val(sv)); }); }
-      if (k === 'A') node.len = v.length;
-      node.x = O.isExtensible(v) ? 1 : 0;
-      node.p = props(v, k === 'A');
-      return ['r', id];
+      nodes.push(null);
+      var k = kindOf(v), t;
+      if (k === 'F') t = '{"t":"F","src":' + JS(fts.call(v)) + '}';
+      else if (k === 'X') t = '{"t":"X","c":' + JS(typeof v === 'function' ? 'function' : ots.call(v)) + '}';
+      else {
+        t = '{"t":"' + k + '"';
+        var parts;
+        if (k === 'M') { parts = []; mapForEach.call(v, function(mv, mk){ parts.push('[' + val(mk) + ',' + val(mv) + ']'); }); t += ',"e":[' + parts.join(',') + ']'; }
+        if (k === 'S') { parts = []; setForEach.call(v, function(sv){ parts.push(val(sv)); }); t += ',"e":[' + parts.join(',') + ']'; }
+        if (k === 'A') t += ',"len":' + v.length;
+        t += ',"x":' + (O.isExtensible(v) ? 1 : 0) + ',"p":[' + props(v, k === 'A') + ']}';
+      }
+      nodes[id] = t;
+      return '["r",' + id + ']';
     }
     function prop(o, key, d){
-      var e = {k: typeof key === 'symbol' ? {y: symName(key) || '?'} : key, f: (d.enumerable ? 2 : 0) | (d.configurable ? 4 : 0)};
+      var f = (d.enumerable ? 2 : 0) | (d.configurable ? 4 : 0);
+      var t = '{"k":' + (typeof key === 'symbol' ? '{"y":"' + (symName(key) || '?') + '"}' : JS(key));
       if ('value' in d || !('get' in d)) {
-        e.f |= d.writable ? 1 : 0;
+        f |= d.writable ? 1 : 0;
         var v = d.value;
         if (strip && isObj(v) && kindOf(v) === 'X') {
-          stripped++;
           try {
             if (d.writable) o[key] = '<opaque>'; else defP(o, key, {value: '<opaque>'});
             v = '<opaque>';
           } catch (ex) { bad.push(String(key)); }
         }
-        e.v = val(v);
-      } else {
-        e.g = val(d.get); e.s = val(d.set);
+        return t + ',"f":' + f + ',"v":' + val(v) + '}';
       }
-      return e;
+      return t + ',"f":' + f + ',"g":' + val(d.get) + ',"s":' + val(d.set) + '}';
     }
     function props(o, skipLen){
       var res = [], names = gOPN(o), i;
@@ -94,14 +97,14 @@ function probe(k){ var t = __probe(k); if (t !== undefined) throw t; }
       }
       var syms = gOPS(o);
       for (i = 0; i < syms.length; i++) res.push(prop(o, syms[i], gOPD(o, syms[i])));
-      return res;
+      return res.join(',');
     }
     var names = gOPN(G), mine = [], i;
     for (i = 0; i < names.length; i++) if (!base.has(names[i]) || dataNames[names[i]] === 1) mine.push(names[i]);
     mine.sort();
-    var out = {g: [], n: nodes, bad: bad};
-    for (i = 0; i < mine.length; i++) out.g.push(prop(G, mine[i], gOPD(G, mine[i])));
-    return JS(out);
+    var gs = [];
+    for (i = 0; i < mine.length; i++) gs.push(prop(G, mine[i], gOPD(G, mine[i])));
+    return '{"g":[' + gs.join(',') + '],"n":[' + nodes.join(',') + '],"bad":' + JS(bad) + '}';
   }
   function rebuild(json){
     var d = JP(json), objs = [], i, n;
@@ -197,4 +200,6 @@ var batterySrc = []string{
 	`with({wx:1}){ log('with:' + typeof wx) } log('nowith:' + typeof wx); var __sw = 0; switch (2) { case 1: __sw = 1; case 2: __sw += 2; case 3: __sw += 3; break; default: __sw = 9 } log('sw:' + __sw); __sw`,
 	// exception from script, caught in script, stack line count
 	`(function(){ function a(){ return new Error('q').stack.split('\n').length } function b(){ return a() } log('stk:' + b() + ',' + a()) })()`,
+	// digest of the data globals after everything else
+	`try { log('fin:' + JSON.stringify([d0, d1, a0, o0, Array.from(m0), Array.from(s0), Object.getOwnPropertyNames(globalThis).length])) } catch (e) { log('fin-err:' + e.name) }`,
 }
